@@ -115,9 +115,10 @@ ASSUMED = [
     '"RP66V1" only if by[4:6] == "V1"',
     '_rp66v2: "" or "RP66V2"; "RP66V2" only if byte 4 is "V"', '_dat: "" or "DAT"; "" when any byte is >= 128; raises nothing',
     '_segy: "" or "SEGY"; raises nothing', '_lis_ver: "" or "LISVER"; "" when the first non-white-space byte is not "="',
-    '_ascii: "ASCII" exactly when the first 256 bytes are all below 128', '_lis: "", "LIS", "LISt" or "LIStr"; raises nothing',
+    None,      # _ascii: verified since round 2, no longer assumed
+    '_lis: "", "LIS", "LISt" or "LIStr"; raises nothing',
 ]
-ASSUMPTIONS = ['assumed contracts of the scanning tests (each tested natively on generated inputs every run, bounded): ' + '; '.join(ASSUMED)]
+ASSUMPTIONS = ['assumed contracts of the scanning tests (each tested natively on generated inputs every run, bounded): ' + '; '.join(a for a in ASSUMED if a)]
 
 GEN_FILE = '''
 import io, random
@@ -227,11 +228,14 @@ def register(reg):
                      ensures=['result == "" or result == "LISVER"',
                               'forall_n(lambda k: implies(first_nonws(%s, k) and %s[k] != 61, result == ""), trigger=lambda k: %s[k])' % (D, D, D)],
                      note=ASSUMED[5], crosscheck='assumed', native_gen=GEN_FILE), verify=False)
-    reg.add(Contract(BF, '_ascii', {'fobj': FOBJ}, returns=Str, modifies=['fobj.pos'], trusted=True,
+    # _ascii: VERIFIED from its real body since round 2 (set(bytes) and issubset modelled; ASCII_BYTES_LOWER_128 read from the source)
+    reg.add(Contract(BF, '_ascii', {'fobj': FOBJ}, returns=Str, modifies=['fobj.pos'],
                      ensures=['result == "" or result == "ASCII"',
                               'forall_n(lambda k: implies(0 <= k and k < len(%s) and k < 256 and %s[k] >= 128, result == ""), trigger=lambda k: %s[k])' % (D, D, D),
-                              'implies(forall(0, len(%s), lambda k: %s[k] < 128), result == "ASCII")' % (D, D)],
-                     note=ASSUMED[6], crosscheck='assumed', native_gen=GEN_FILE), verify=False)
+                              'implies(forall(0, len(%s), lambda k: %s[k] < 128), result == "ASCII")' % (D, D),
+                              # exactly: only the first 256 bytes count
+                              'implies(forall(0, len(%s), lambda k: implies(k < 256, %s[k] < 128)), result == "ASCII")' % (D, D)],
+                     canaries=['result == ""', 'result == "ASCII"'], native_gen=GEN_FILE))
     reg.add(Contract(BF, '_lis', {'fobj': FOBJ}, returns=Str, modifies=['fobj.pos'], trusted=True,
                      ensures=['result == "" or result == "LIS" or result == "LISt" or result == "LIStr"'],
                      note=ASSUMED[7], crosscheck='assumed', native_gen=GEN_FILE), verify=False)
